@@ -181,3 +181,39 @@ Lemma unlocked_by_id_reader_refuted :
 Proof.
   cbn zeta. repeat split. intros s' HI. rewrite (inv_last_by_id _ _ _ HI). discriminate.
 Qed.
+
+(* ---------------------------------------------------------------- the SQL group index is the list *)
+Lemma lookup_h_in g0 l : genesis_ok g0 -> chain g0 l -> forall g, In g l -> lookup_h l (gheight g) = Some g.
+Proof.
+  intros G0. induction l as [|a r IH]; [intros []|].
+  intros Hc g [<-|Hin]; rewrite lookup_h_cons.
+  - rewrite N.eqb_refl. reflexivity.
+  - destruct r as [|p r']; [destruct Hin|].
+    pose proof (chain_tail _ _ _ _ Hc) as Ht.
+    pose proof (chain_heights_lt _ _ Ht g Hin) as Hlt.
+    rewrite (chain_hd_height _ _ _ Hc).
+    destruct (N.eqb_spec (gheight g) (N.of_nat (length (p :: r')))) as [E|_]; [lia|].
+    apply IH; assumption.
+Qed.
+
+(* the groupIndex table (hash, groupheight) holds exactly one row per group of the list, with the
+   group's position in the list (genesis first) as groupheight: the third index is the walked list *)
+Lemma sql_index_is_the_list g0 s : genesis_ok g0 -> Inv g0 s ->
+  exists l, SpecL g0 s l /\
+    NoDup (map fst (sq (st s))) /\
+    (forall i h, In (i, h) (sq (st s)) <->
+                 exists g, nth_error l (N.to_nat h) = Some g /\ gid g = i /\ gheight g = h) /\
+    length (sq (st s)) = length l.
+Proof.
+  intros G0 (l & Hc & Hhd & Hn & Hgc & Hcur & Hg & Hi & [[Hnd Hsub] Hcomp]).
+  exists (rev l). split; [apply (inv_specL g0 G0); assumption|]. split; [exact Hnd|]. split.
+  - intros i h. split.
+    + intros Hin. apply Hsub in Hin. apply in_map_iff in Hin. destruct Hin as (g & E & Hgl).
+      injection E as <- <-. exists g. split; [|split; reflexivity].
+      pose proof (chain_heights_lt _ _ Hc g Hgl) as Hlt.
+      rewrite <- (lookup_h_nth g0 l Hc (N.to_nat (gheight g))) by lia.
+      rewrite N2Nat.id. apply (lookup_h_in g0 l G0 Hc g Hgl).
+    + intros (g & Hnth & <- & <-). apply Hcomp. apply (in_map row).
+      apply in_rev. eapply nth_error_In. exact Hnth.
+  - rewrite rev_length. apply sqok_length; [exact (chain_nodup _ _ Hc)|split; [split|]; assumption].
+Qed.
